@@ -24,8 +24,11 @@ static const Port P = rParamF(c, rLinear(-3.5,20.25), "float");
 #elif KIND == 5
 static const Port P = rToggle(t, "toggle");
 #define LOC "/t"
-#elif KIND == 6 || KIND == 11
+#elif KIND == 6
 static const Port P = rOption(o, rOptions(aa, bb, cc), rLinear(0,2), "option");
+#define LOC "/o"
+#elif KIND == 11   /* option names where a later name is a proper prefix of an earlier one */
+static const Port P = rOption(o, rOptions(aab, aa, cc), rLinear(0,2), "option");
 #define LOC "/o"
 #elif KIND == 7
 static const Port P = rArrayI(arr, 4, rLinear(0,9), "array");
@@ -109,7 +112,7 @@ extern "C" void harness(void)
 #elif KIND == 10
         tags = "s"; for(int j = 0; j < 5; j++) sarg[j] = nd_char(); sarg[5] = 0; arg.s = sarg;
 #elif KIND == 11
-        tags = "S"; { const int w = VT ? 1 : 2; sarg[0] = (char)('a' + w); sarg[1] = (char)('a' + w); sarg[2] = 0; arg.s = sarg; vi = w; }
+        tags = "S"; { const int w = VT ? 1 : 2; const char c_ = VT ? 'a' : 'c'; sarg[0] = c_; sarg[1] = c_; sarg[2] = 0; arg.s = sarg; vi = w; }   /* "aa" -> 1, "cc" -> 2 */
 #endif
     }
 #if KIND == 7
